@@ -1,6 +1,7 @@
 package gen
 
 import (
+	"encoding/json"
 	"math"
 
 	"pgregory.net/rapid"
@@ -8,8 +9,8 @@ import (
 
 // Keys is the shared key alphabet: small, so random documents hit, but covering dot-illegal,
 // escaped, non-ASCII and astral keys.
-var Keys = []string{"a", "b", "c", "d", "aa", "0", "a b", "é", "😀", "a.b", "", "'", "\"", "x\\y", "-", "a\tb", "\n"}
-var keyWeights = []int{12, 10, 8, 4, 3, 3, 2, 2, 1, 2, 1, 1, 1, 1, 1, 1, 1}
+var Keys = []string{"a", "b", "c", "d", "aa", "0", "a b", "é", "😀", "a.b", "", "'", "\"", "x\\y", "-", "a\tb", "\n", "é.b", "名 前", "ü-ö$x"}
+var keyWeights = []int{12, 10, 8, 4, 3, 3, 2, 2, 1, 2, 1, 1, 1, 1, 1, 1, 1, 2, 1, 1}
 
 var keyGen = weighted(Keys, keyWeights)
 
@@ -36,8 +37,9 @@ type PathOpts struct {
 	FilterHeavy    bool // more filters, more == != && || !
 	RootOmit       bool // allow root-omitted top-level paths
 	MinSteps       int
-	FuncPct        int // chance of each trailing function on the main path (default 45)
-	OperandFuncPct int // chance of a function on an operand path (default 12)
+	FuncPct        int  // chance of each trailing function on the main path (default 45)
+	OperandFuncPct int  // chance of a function on an operand path (default 12)
+	ReuseFuncs     bool // a function name may occur several times in one path (default: each name once, so that a name identifies an occurrence)
 }
 
 // G is a generation context: it hands out each function name at most once per case so
@@ -244,7 +246,9 @@ func (g *G) takeFilterFn() (string, bool) {
 	}
 	i := g.intn("ffn", len(g.filters))
 	n := g.filters[i]
-	g.filters = append(g.filters[:i:i], g.filters[i+1:]...)
+	if !g.O.ReuseFuncs {
+		g.filters = append(g.filters[:i:i], g.filters[i+1:]...)
+	}
 	return n, true
 }
 
@@ -254,7 +258,9 @@ func (g *G) takeAggFn() (string, bool) {
 	}
 	i := g.intn("afn", len(g.aggs))
 	n := g.aggs[i]
-	g.aggs = append(g.aggs[:i:i], g.aggs[i+1:]...)
+	if !g.O.ReuseFuncs {
+		g.aggs = append(g.aggs[:i:i], g.aggs[i+1:]...)
+	}
 	return n, true
 }
 
@@ -424,6 +430,65 @@ func (g *G) Atom(filterDepth int) *Query {
 // Query draws a filter expression with the grammar's associativity made explicit:
 // the right child of || is never ||, children of && are never || (parenthesised instead),
 // the right child of && is never &&.
+// variantOf copies an atom and changes one thing (a name in an operand path, the literal, or
+// the operator): siblings of a logical operator that look alike are what an optimiser would
+// try to merge.
+func (g *G) variantOf(q *Query) *Query {
+	b, _ := json.Marshal(q)
+	var c Query
+	if json.Unmarshal(b, &c) != nil {
+		return q
+	}
+	rename := func(p *Path) bool {
+		for i := range p.Steps {
+			if p.Steps[i].Kind == KName {
+				old := p.Steps[i].Key
+				for try := 0; try < 4 && p.Steps[i].Key == old; try++ {
+					p.Steps[i].Key = g.key()
+				}
+				if p.Steps[i].Not == NDot && !DotLegal(p.Steps[i].Key) {
+					p.Steps[i].Not = NSQ
+				}
+				return true
+			}
+		}
+		return false
+	}
+	switch c.Kind {
+	case QExists, QRegex:
+		if !rename(c.P) {
+			c.P.Steps = append([]Step{{Kind: KName, Key: g.key(), Not: NSQ}}, c.P.Steps...)
+		}
+	case QCmp:
+		switch g.intn("variantkind", 3) {
+		case 0:
+			for _, o := range []*Operand{c.A, c.B} {
+				if !o.IsLit && rename(o.P) {
+					return &c
+				}
+			}
+			fallthrough
+		case 1:
+			for _, o := range []*Operand{c.B, c.A} {
+				if o.IsLit {
+					*o = *g.Literal(c.Op != "==" && c.Op != "!=")
+					return &c
+				}
+			}
+			fallthrough
+		default:
+			if c.Op == "==" || c.Op == "!=" {
+				c.Op = map[string]string{"==": "!=", "!=": "=="}[c.Op]
+			} else {
+				c.Op = []string{"<", "<=", ">", ">="}[g.intn("variantop", 4)]
+			}
+		}
+	}
+	return &c
+}
+
+func isAtom(q *Query) bool { return q.Kind == QExists || q.Kind == QCmp || q.Kind == QRegex }
+
 func (g *G) Query(logicDepth, filterDepth int) *Query {
 	if logicDepth <= 0 {
 		return g.Atom(filterDepth)
@@ -436,6 +501,9 @@ func (g *G) Query(logicDepth, filterDepth int) *Query {
 	switch {
 	case r < 16+heavy:
 		l, rr := g.Query(logicDepth-1, filterDepth), g.Query(logicDepth-1, filterDepth)
+		if isAtom(l) && g.chance("sibling", 30) {
+			rr = g.variantOf(l)
+		}
 		if l.Kind == QOr {
 			l = &Query{Kind: QParen, L: l}
 		}
@@ -445,6 +513,9 @@ func (g *G) Query(logicDepth, filterDepth int) *Query {
 		return &Query{Kind: QAnd, L: l, R: rr}
 	case r < 30+2*heavy:
 		l, rr := g.Query(logicDepth-1, filterDepth), g.Query(logicDepth-1, filterDepth)
+		if isAtom(l) && g.chance("sibling", 30) {
+			rr = g.variantOf(l)
+		}
 		if rr.Kind == QOr {
 			rr = &Query{Kind: QParen, L: rr}
 		}
